@@ -386,14 +386,49 @@ theorem spec_call_never_ret (st : Stmt) (s s' : St) (e : RtErr) (v : Val) :
   rcases hr : Spec.exec st s with ⟨o, s1⟩
   cases o <;> simp
 
+/-- **spec_first_listed_clause** (program level, reference-semantics side): in the statement a try node reads as,
+    a typed except clause whose type strings are plain literals handles an error `e` EXACTLY when the type of `e`
+    is one of the listed texts — it then runs its block in the clause's scope and the statement continues
+    normally (value null) unless the block itself ends otherwise; when the type is not listed the error goes,
+    unchanged and without any effect, to the clauses after it. (`f` is the fuel of the clause's sub-trees.) -/
+theorem spec_first_listed_clause (g : Nat → Node → Stmt) (f sc : Nat) (c s0 st : Node) (ss : List Node) (rest : Clauses)
+    (e : Sig) (s : St) (hs : clauseShape c = .typed s0 ss st) (hv : ∀ x ∈ s0 :: ss, PlainStr x (textOf x)) :
+    Spec.handle (clauseOfNode g (f+2) sc c rest) e s =
+      if ((s0 :: ss).map textOf).any (fun b => bytesToString b == errType e) then
+        (match Spec.exec (clauseBody g sc c st) s with
+         | (.normal _, s2) => (.normal Val.null, s2)
+         | (o, s2) => (o, s2))
+      else Spec.handle rest e s := by
+  unfold clauseOfNode
+  rw [hs]
+  simp only [Spec.handle, liftM, map_eval_plain f sc _ hv, typedMatch_values, pure_bind, run_pure, toOutS, toOut_ok]
+  by_cases hl : ((s0 :: ss).map textOf).any (fun b => bytesToString b == errType e) = true
+  · simp only [hl, if_true]
+    rcases Spec.exec (clauseBody g sc c st) s with ⟨o, s2⟩
+    cases o <;> rfl
+  · simp only [hl, Bool.false_eq_true, if_false]
+
+/-- a bare clause handles every error -/
+theorem spec_bare_clause (g : Nat → Node → Stmt) (f'' sc : Nat) (c st : Node) (rest : Clauses) (e : Sig) (s : St)
+    (hs : clauseShape c = .bare st) :
+    Spec.handle (clauseOfNode g f'' sc c rest) e s =
+      (match Spec.exec (clauseBody g sc c st) s with
+       | (.normal _, s2) => (.normal Val.null, s2)
+       | (o, s2) => (o, s2)) := by
+  unfold clauseOfNode
+  rw [hs]
+  simp only [Spec.handle, liftM, run_pure, toOutS, toOut_ok]
+  rcases Spec.exec (clauseBody g sc c st) s with ⟨o, s2⟩
+  cases o <;> rfl
+
 /-- **spec_refinement_partial** — the PROVED part of "eval refines the reference semantics": `eval_refines_spec`
     under the name that says it is partial. FULL statement not proved: the same with (1) calls inside a program
     read as `Stmt.call` (today a call node is a leaf of `stmtOf`; `call_refines_spec` is about the function body once
-    its frame exists and is not connected to the call node), (2) except clauses read as `Clauses.clause` with their
-    type test (today `Clauses.opaque`; the decision of a typed clause is `exceptHandler_typed_decides` /
-    `exceptHandler_typed_as_decides`, not part of `Spec.handle`), (3) `for … in` loops (leaves). With
+    its frame exists and is not connected to the call node), (2) the clause shapes that BIND the error (`except e`, `except as e`, `"T" as e`,
+    `"T" e`: still `Clauses.opaque`; bare and typed clauses ARE `Clauses.clause` now — `spec_first_listed_clause`,
+    `spec_bare_clause`), (3) `for … in` loops (leaves). With
     `stmtOf := leaf ∘ eval` the statement would be `rfl`: its content is exactly the node kinds statements, if,
-    condition loop and the try skeleton (block, otherwise, finally, handler order). -/
+    condition loop and try (block, otherwise, finally, clause order, type test of bare / typed clauses). -/
 theorem spec_refinement_partial (f sc : Nat) (n : Node) (s : St) :
     toOutS (run (eval f sc n) s) = Spec.exec (stmtOf f sc n) s := eval_refines_spec f sc n s
 
